@@ -59,15 +59,26 @@ Theorem C02E_invariant : forall cfg0 nclients, cfg_policy cfg0 = PAll -> forall 
   script_scope cfg0 nclients script -> run (sys_init cfg0 nclients) script = Ok y -> v_inv cfg0 nclients script y.
 Proof. exact v_run. Qed.
 
-(* ---- T: truthfulness (C02).  The components of a replica carry the values the server had right after the
-        frame that replicated at the entity's confirmed tick: no mixture of ticks.  (Same kinds: C03E.) ---- *)
+(* ---- T: truthfulness (C02).  A replica has exactly the component kinds, and carries exactly the values, the server
+        entity had right after the frame that replicated at the entity's confirmed tick (and the entity was
+        replicated then): no mixture of ticks. ---- *)
 Theorem C02E_truthful : forall cfg0 nclients, cfg_policy cfg0 = PAll -> forall script y slot c e cid x h,
   script_scope cfg0 nclients script -> run (sys_init cfg0 nclients) script = Ok y ->
   al_get slot (y_clients y) = Some c -> cl_status c = Connected ->
   al_get e (cl_s2c c) = Some cid -> get_cent c cid = Some x -> ce_alive x = true -> ce_marker x = true -> ce_hist x = Some h ->
   exists pre post y1 x1, script = pre ++ post /\ run (sys_init cfg0 nclients) pre = Ok y1 /\
-    sv_tick (y_server y1) = h_last h /\ get_ent (y_server y1) e = Some x1 /\ agree (ce_comps x) (se_comps x1).
+    sv_tick (y_server y1) = h_last h /\ repl_get (y_server y1) e = Some x1 /\ agree (ce_comps x) (se_comps x1) /\
+    kinds_equiv (map fst (ce_comps x)) (map fst (se_comps x1)).
 Proof. exact e2e_truthful. Qed.
+
+(* ... as an equality of the two finite maps kind -> value *)
+Theorem C02E_truthful_exact : forall cfg0 nclients, cfg_policy cfg0 = PAll -> forall script y slot c e cid x h,
+  script_scope cfg0 nclients script -> run (sys_init cfg0 nclients) script = Ok y ->
+  al_get slot (y_clients y) = Some c -> cl_status c = Connected ->
+  al_get e (cl_s2c c) = Some cid -> get_cent c cid = Some x -> ce_alive x = true -> ce_marker x = true -> ce_hist x = Some h ->
+  exists pre post y1, script = pre ++ post /\ run (sys_init cfg0 nclients) pre = Ok y1 /\ sv_tick (y_server y1) = h_last h /\
+    forall k, al_get k (ce_comps x) = option_map cv_nat (sview (y_server y1) e k).
+Proof. exact e2e_truthful_exact. Qed.
 
 (* ---- K: an acknowledged stamp is backed by the client ---- *)
 Theorem C02E_ack_sound : forall cfg0 nclients, cfg_policy cfg0 = PAll -> forall script y slot c cl e a,
@@ -76,8 +87,7 @@ Theorem C02E_ack_sound : forall cfg0 nclients, cfg_policy cfg0 = PAll -> forall 
   In cl (sv_clients (y_server y)) -> sc_slot cl = slot -> mutation_tick (sc_ticks cl) e = Some a ->
   exists pre post y1, script = pre ++ post /\ run (sys_init cfg0 nclients) pre = Ok y1 /\ sv_last_run (y_server y1) = a /\
     ((exists u, In u (cl_inbox_upd c ++ l_upd (get_link y slot)) /\ mentions u e /\ sv_tick (y_server y1) <= u_tick u) \/
-     (exists x h, has c e x h /\ sv_tick (y_server y1) <= h_last h) \/
-     gone (y_server y) c (cl_inbox_upd c ++ l_upd (get_link y slot)) e).
+     (exists x h, has c e x h /\ sv_tick (y_server y1) <= h_last h)).
 Proof. exact e2e_ack_sound. Qed.
 
 (* ---- Q: convergence (C01).  No update message on its way, nothing pending on the server for the client
@@ -97,6 +107,7 @@ Print Assumptions C02E_regs_bound.
 Print Assumptions C02E_server_history.
 Print Assumptions C02E_invariant.
 Print Assumptions C02E_truthful.
+Print Assumptions C02E_truthful_exact.
 Print Assumptions C02E_ack_sound.
 Print Assumptions C02E_converged.
 
@@ -173,7 +184,8 @@ Example C02E_ex_truthful_instance :
   exists y c x h, run (sys_init ex_cfg 1) (firstn 11 ex_val) = Ok y /\ al_get 0 (y_clients y) = Some c /\
     get_cent c 0 = Some x /\ ce_hist x = Some h /\ h_last h = 1 /\ sv_tick (y_server y) = 4 /\
     exists pre post y1 x1, firstn 11 ex_val = pre ++ post /\ run (sys_init ex_cfg 1) pre = Ok y1 /\
-      sv_tick (y_server y1) = h_last h /\ get_ent (y_server y1) 1 = Some x1 /\ agree (ce_comps x) (se_comps x1).
+      sv_tick (y_server y1) = h_last h /\ repl_get (y_server y1) 1 = Some x1 /\ agree (ce_comps x) (se_comps x1) /\
+      kinds_equiv (map fst (ce_comps x)) (map fst (se_comps x1)).
 Proof.
   destruct (run (sys_init ex_cfg 1) (firstn 11 ex_val)) as [y| |] eqn:E; [|vm_compute in E; discriminate|vm_compute in E; discriminate].
   destruct (al_get 0 (y_clients y)) as [c|] eqn:Ec; [|vm_compute in E; inversion E; subst y; vm_compute in Ec; discriminate].
